@@ -74,6 +74,17 @@ def make_rasters(rng, n, shapes):
         elif u < 0.45:
             # repeated target values
             ras["vals"] = [[rng.choice([1, 2]) * mask[r][c] for c in range(W)] for r in range(H)]
+        elif u < 0.70:
+            # signed target values that cancel (+v / -v): a block (with its halo) whose values SUM to zero still
+            # holds targets - any "empty chunk" shortcut based on a sum or mean must not fire
+            v = rng.choice([4, 1, 2.5])
+            flat = [(r, c) for r in range(H) for c in range(W) if mask[r][c]]
+            ras["vals"] = [[0] * W for _ in range(H)]
+            for i, (r, c) in enumerate(flat):
+                ras["vals"][r][c] = v if i % 2 == 0 else -v
+            if len(flat) % 2 == 1 and len(flat) > 1:
+                r, c = flat[-1]
+                ras["vals"][r][c] = -v
         if rng.random() < 0.3 and all(not isinstance(v, str) for row in ras["vals"] for v in row):
             ras["dtype"] = rng.choice(["int32", "uint8", "int64", "float32"])
         out.append(ras)
